@@ -1,1 +1,335 @@
-fn main() {}
+//! C20 — one first-use race trial per process (also the TSan and Miri target).
+//!
+//!   c20_trial --reference K --out FILE         run every op alone after K register_tags() calls
+//!   c20_trial --seed S --threads T --len L --out FILE|--out-dir DIR
+//!
+//! Trial output: one line per event
+//!   E <thread> <op> <env> <call_ts> <ret_ts> <result-hash-hex> <ok|panic>
+//!   H <thread> <hook point> <ts>
+//! Timestamps come from ONE global logical clock (AtomicU64, SeqCst), taken immediately before
+//! the call and after the return at the client boundary. Buffers are thread-local during the run
+//! and merged after the threads have been joined.
+
+use std::cell::RefCell;
+use std::sync::atomic::{AtomicU64, Ordering};
+use std::sync::{Arc, Barrier};
+
+use bc_components::{Digest, ARID};
+use bc_envelope::prelude::*;
+use bc_envelope::{GLOBAL_FORMAT_CONTEXT, KNOWN_VALUES};
+
+static CLOCK: AtomicU64 = AtomicU64::new(1);
+
+fn tick() -> u64 {
+    CLOCK.fetch_add(1, Ordering::SeqCst)
+}
+
+fn fnv(s: &[u8]) -> u64 {
+    let mut h: u64 = 0xcbf29ce484222325;
+    for b in s {
+        h ^= *b as u64;
+        h = h.wrapping_mul(0x100000001b3);
+    }
+    h
+}
+
+fn splitmix(x: &mut u64) -> u64 {
+    *x = x.wrapping_add(0x9E37_79B9_7F4A_7C15);
+    let mut z = *x;
+    z = (z ^ (z >> 30)).wrapping_mul(0xBF58_476D_1CE4_E5B9);
+    z = (z ^ (z >> 27)).wrapping_mul(0x94D0_49BB_1331_11EB);
+    z ^ (z >> 31)
+}
+
+thread_local! {
+    static HOOKS: RefCell<Vec<(&'static str, u64)>> = const { RefCell::new(Vec::new()) };
+    static DELAY: RefCell<(u64, u32)> = const { RefCell::new((0, 0)) };
+}
+
+/// failpoint callback: record (point, ts) thread-locally and perform a seeded yield / short sleep
+#[cfg(feature = "hooks")]
+fn hook(point: &'static str) {
+    HOOKS.with(|h| h.borrow_mut().push((point, tick())));
+    let (r, mode) = DELAY.with(|d| {
+        let mut d = d.borrow_mut();
+        let r = splitmix(&mut d.0);
+        (r, d.1)
+    });
+    if mode == 0 {
+        return;
+    }
+    match r % 8 {
+        0 | 1 => std::thread::yield_now(),
+        2 => {
+            if !cfg!(miri) {
+                std::thread::sleep(std::time::Duration::from_micros(20 + (r >> 8) % 200))
+            } else {
+                std::thread::yield_now()
+            }
+        }
+        3 => {
+            for _ in 0..((r >> 8) % 4) {
+                std::thread::yield_now();
+            }
+        }
+        _ => {}
+    }
+}
+
+fn arid(n: u8) -> ARID {
+    ARID::from_data([n; 32])
+}
+
+/// the fixed envelope set: text depends on tags / known values / functions / parameters registries
+fn envelopes() -> Vec<Envelope> {
+    let id = arid(7);
+    let date = dcbor::Date::from_timestamp(1_720_091_471.0);
+    let req = Request::new(functions::ADD, id).with_parameter(parameters::LHS, 2).with_parameter(parameters::RHS, 3).with_note("n").with_date(&date);
+    let req_env: Envelope = req.clone().into();
+    let resp = Response::new_success(id).with_result("ok");
+    let resp_env: Envelope = resp.clone().into();
+    let fail: Envelope = Response::new_failure(id).with_error("bad").into();
+    let early: Envelope = Response::new_early_failure().into();
+    let ev: Envelope = Event::<String>::new("happened", id).with_note("e").with_date(&date).into();
+    let named: Envelope = Expression::new("myFunc").with_parameter("p1", 1).with_parameter(Parameter::new_known(77, None), "x").into();
+    let key = bc_components::SymmetricKey::from_data([9u8; 32]);
+    let nonce = bc_components::Nonce::from_data([3u8; 12]);
+    let alice = Envelope::new("Alice").add_assertion("knows", "Bob").add_assertion(known_values::NOTE, "a note").add_type(known_values::SEED_TYPE);
+    // leaves that nest request / response / event tags inside one another (text depends on how many
+    // times register_tags() has completed)
+    let nested1 = Envelope::new(dcbor::CBOR::to_tagged_value(40004u64, dcbor::CBOR::to_tagged_value(40005u64, id)));
+    let nested2 = Envelope::new(dcbor::CBOR::to_tagged_value(40005u64, dcbor::CBOR::to_tagged_value(40026u64, dcbor::CBOR::to_tagged_value(40004u64, id))));
+    let nested3 = Envelope::new(dcbor::CBOR::to_tagged_value(40026u64, dcbor::CBOR::to_tagged_value(40000u64, 4)));
+    let mut v = vec![
+        Envelope::new("Hello."),
+        Envelope::new(42),
+        Envelope::new(-7),
+        Envelope::new(1.5),
+        Envelope::new(true),
+        Envelope::null(),
+        Envelope::new(dcbor::ByteString::from(vec![1u8, 2, 3])),
+        Envelope::new(known_values::NOTE),
+        Envelope::new(KnownValue::new(12345)),
+        Envelope::new(KnownValue::new(0)),
+        Envelope::new(date.clone()),
+        Envelope::new(id),
+        Envelope::new(Digest::from_image(b"x")),
+        Envelope::new(bc_components::UUID::from_data([5u8; 16])),
+        Envelope::new(bc_components::URI::new("https://example.com").unwrap()),
+        Envelope::new(bc_components::Salt::from_data(vec![1u8; 10])),
+        Envelope::new(functions::ADD),
+        Envelope::new(Function::new_known(999, None)),
+        Envelope::new(Function::new_named("named")),
+        Envelope::new(parameters::LHS),
+        Envelope::new(Parameter::new_known(888, None)),
+        Envelope::new(Parameter::new_named("pn")),
+        Envelope::new_assertion(known_values::IS_A, known_values::SEED_TYPE),
+        alice.clone(),
+        alice.wrap_envelope(),
+        alice.elide_removing_target(&Envelope::new("Bob")),
+        alice.compress().unwrap(),
+        alice.encrypt_subject_opt(&key, Some(nonce)).unwrap(),
+        alice.elide(),
+        req_env.clone(),
+        resp_env.clone(),
+        fail,
+        early,
+        ev,
+        named,
+        nested1,
+        nested2,
+        nested3,
+        Envelope::new("outer").add_assertion("request", req_env.clone()).add_assertion("response", resp_env.clone()),
+        Envelope::new(vec![1, 2, 3]),
+        Envelope::new(dcbor::CBOR::to_tagged_value(12345u64, "unknown tag")),
+        Envelope::new(dcbor::CBOR::to_tagged_value(40001u64, "not a digest")),
+    ];
+    v.push(Envelope::new("many").add_assertion(known_values::DATE, date).add_assertion(known_values::ID, id).add_assertion(functions::MUL, parameters::BLANK));
+    v
+}
+
+pub const OPS: [&str; 17] = [
+    "format",
+    "format_flat",
+    "tree_format",
+    "tree_format_hide",
+    "diagnostic",
+    "diagnostic_annotated",
+    "hex",
+    "hex_annotated",
+    "display",
+    "request_summary",
+    "response_summary",
+    "kv_lookup",
+    "fn_lookup",
+    "param_lookup",
+    "ctx_lookup",
+    "digest_bytes",
+    "register_tags",
+];
+
+fn run_op(op: &str, e: &Envelope, idx: usize) -> String {
+    match op {
+        "format" => e.format(),
+        "format_flat" => e.format_flat(),
+        "tree_format" => e.tree_format(false),
+        "tree_format_hide" => e.tree_format(true),
+        "diagnostic" => e.diagnostic(),
+        "diagnostic_annotated" => e.diagnostic_annotated(),
+        "hex" => e.hex(),
+        "hex_annotated" => e.hex_opt(true, None),
+        "display" => format!("{}", e),
+        "request_summary" => match Request::try_from(e.clone()) {
+            // one formatting call per operation: an operation that formats twice may legitimately see
+            // two registry states and would not be comparable with any single sequential run
+            Ok(r) => r.summary(),
+            Err(_) => "not a request".into(),
+        },
+        "response_summary" => match Response::try_from(e.clone()) {
+            Ok(r) => format!("{}", r),
+            Err(_) => "not a response".into(),
+        },
+        "kv_lookup" => {
+            let g = KNOWN_VALUES.get();
+            let s = g.as_ref().unwrap();
+            let kv = KnownValue::new((idx as u64) % 30);
+            format!("{} {:?} {:?}", s.name(kv.clone()), s.assigned_name(&kv), s.known_value_named("note").map(|k| k.value()))
+        }
+        "fn_lookup" => {
+            let g = bc_envelope::extension::expressions::GLOBAL_FUNCTIONS.get();
+            let s = g.as_ref().unwrap();
+            let f = Function::new_known((idx as u64) % 6, None);
+            format!("{} {:?}", s.name(&f), s.assigned_name(&f))
+        }
+        "param_lookup" => {
+            let g = bc_envelope::extension::expressions::GLOBAL_PARAMETERS.get();
+            let s = g.as_ref().unwrap();
+            let p = Parameter::new_known((idx as u64) % 5, None);
+            format!("{} {:?}", s.name(&p), s.assigned_name(&p))
+        }
+        "ctx_lookup" => {
+            let g = GLOBAL_FORMAT_CONTEXT.get();
+            let c = g.as_ref().unwrap();
+            format!("{} {} {}", c.tags().name_for_value(200 + (idx as u64) % 3), c.known_values().name(KnownValue::new((idx as u64) % 20)), c.tags().name_for_value(40000 + (idx as u64) % 30))
+        }
+        "digest_bytes" => format!("{} {}", hex::encode(bc_components::DigestProvider::digest(e).data()), hex::encode(e.tagged_cbor().to_cbor_data())),
+        "register_tags" => {
+            bc_envelope::register_tags();
+            "registered".into()
+        }
+        _ => unreachable!(),
+    }
+}
+
+fn arg(args: &[String], name: &str) -> Option<String> {
+    args.iter().position(|a| a == name).and_then(|i| args.get(i + 1).cloned())
+}
+
+fn reference(k: usize, out: &str) {
+    for _ in 0..k {
+        bc_envelope::register_tags();
+    }
+    let envs = envelopes();
+    let mut s = String::new();
+    for op in OPS.iter().filter(|o| **o != "register_tags") {
+        for (i, e) in envs.iter().enumerate() {
+            let text = run_op(op, e, i);
+            s.push_str(&format!("R {} {} {:016x} {}\n", op, i, fnv(text.as_bytes()), text.replace('\n', "\\n").chars().take(160).collect::<String>()));
+        }
+    }
+    std::fs::write(out, s).expect("write reference");
+}
+
+struct Ev {
+    thread: usize,
+    op: &'static str,
+    env: usize,
+    call: u64,
+    ret: u64,
+    hash: u64,
+    ok: bool,
+}
+
+fn main() {
+    let args: Vec<String> = std::env::args().collect();
+    if let Some(k) = arg(&args, "--reference") {
+        reference(k.parse().unwrap(), &arg(&args, "--out").unwrap());
+        return;
+    }
+    let seed: u64 = arg(&args, "--seed").and_then(|s| s.parse().ok()).unwrap_or(1);
+    let threads: usize = arg(&args, "--threads").and_then(|s| s.parse().ok()).unwrap_or(4);
+    let len: usize = arg(&args, "--len").and_then(|s| s.parse().ok()).unwrap_or(20);
+    let delay_mode: u32 = arg(&args, "--delays").and_then(|s| s.parse().ok()).unwrap_or(1);
+    #[cfg(feature = "hooks")]
+    {
+        bc_envelope::verif_hooks::install(hook);
+    }
+    // silence panic messages; panics are recorded as events
+    std::panic::set_hook(Box::new(|_| {}));
+
+    // With the `multithreaded` feature one set of Arc-backed envelopes is shared by all threads;
+    // otherwise (Rc) every thread builds its own copies. Building envelopes touches no registry.
+    #[cfg(feature = "mt")]
+    let shared: Arc<Vec<Envelope>> = Arc::new(envelopes());
+    let barrier = Arc::new(Barrier::new(threads));
+    let mut handles = Vec::new();
+    for t in 0..threads {
+        let barrier = barrier.clone();
+        #[cfg(feature = "mt")]
+        let shared = shared.clone();
+        handles.push(std::thread::spawn(move || {
+            #[cfg(feature = "mt")]
+            let envs: &Vec<Envelope> = &shared;
+            #[cfg(not(feature = "mt"))]
+            let owned = envelopes();
+            #[cfg(not(feature = "mt"))]
+            let envs: &Vec<Envelope> = &owned;
+            let mut rs = seed ^ ((t as u64 + 1).wrapping_mul(0x9E37_79B9_7F4A_7C15));
+            DELAY.with(|d| *d.borrow_mut() = (splitmix(&mut rs), delay_mode));
+            let mut events: Vec<Ev> = Vec::with_capacity(len);
+            barrier.wait();
+            for _ in 0..len {
+                let r = splitmix(&mut rs);
+                // register_tags about 1 in 12 operations, so k moves during the trial
+                let op: &'static str = if r % 12 == 0 { "register_tags" } else { OPS[((r >> 8) % (OPS.len() as u64 - 1)) as usize] };
+                let ei = ((r >> 24) % envs.len() as u64) as usize;
+                let e = &envs[ei];
+                let call = tick();
+                let res = std::panic::catch_unwind(std::panic::AssertUnwindSafe(|| run_op(op, e, ei)));
+                let ret = tick();
+                match res {
+                    Ok(text) => events.push(Ev { thread: t, op, env: ei, call, ret, hash: fnv(text.as_bytes()), ok: true }),
+                    Err(_) => events.push(Ev { thread: t, op, env: ei, call, ret, hash: 0, ok: false }),
+                }
+            }
+            let hooks: Vec<(&'static str, u64)> = HOOKS.with(|h| h.borrow().clone());
+            (events, hooks)
+        }));
+    }
+    let mut out = String::new();
+    let mut joined = 0;
+    for (t, h) in handles.into_iter().enumerate() {
+        match h.join() {
+            Ok((events, hooks)) => {
+                joined += 1;
+                for e in events {
+                    out.push_str(&format!("E {} {} {} {} {} {:016x} {}\n", e.thread, e.op, e.env, e.call, e.ret, e.hash, if e.ok { "ok" } else { "panic" }));
+                }
+                for (p, ts) in hooks {
+                    out.push_str(&format!("H {} {} {}\n", t, p, ts));
+                }
+            }
+            Err(_) => out.push_str(&format!("X {} thread-died\n", t)),
+        }
+    }
+    out.push_str(&format!("DONE threads={} joined={} seed={} len={}\n", threads, joined, seed, len));
+    if let Some(dir) = arg(&args, "--out-dir") {
+        let nanos = std::time::SystemTime::now().duration_since(std::time::UNIX_EPOCH).map(|d| d.as_nanos()).unwrap_or(0);
+        let _ = std::fs::create_dir_all(&dir);
+        std::fs::write(format!("{}/trial-{}-{}.log", dir, seed, nanos), out).expect("write trial log");
+    } else if let Some(path) = arg(&args, "--out") {
+        std::fs::write(path, out).expect("write trial log");
+    } else {
+        print!("{}", out);
+    }
+}
